@@ -79,3 +79,107 @@ def run(prog, rule="R-HEADGUARD", floor=5):
     res.counts["bucket_head_stores"] = n
     res.floor("stores into bucket heads of the symbol table", n, floor)
     return res
+
+
+def run_hashof(prog, rule="R-HASHOF", floor=2):
+    """the bucket an entry is inserted into is the bucket of its own name.  `ILLsymboltab::the_hash` is a scratch field: the last lookup
+    leaves the hash of the string it looked for in it.  A head insertion `hashtable[h->the_hash] = e` must use the hash of the string whose
+    symbol the entry gets (the string given to add_string on the path): on every path to the insertion the last definition of the_hash -
+    a direct `the_hash = stringhash (S, hashspace)` or a call of a function that computes it from its string parameter (found from the
+    callee's body) - names the same string S, and no call that may change `hashspace` lies between that definition and the insertion."""
+    from ..core import Flow
+    res = RuleResult(rule, "a head insertion through the scratch field the_hash uses the hash of the inserted entry's own name, computed for the current "
+                           "size of the table")
+    funcs = [f for f in prog.funcs.values() if f.live is not None and f.unit.endswith("qsopt_ex/symtab.c")]
+    # callees that set the_hash from a string parameter / that change hashspace (transitively)
+    sets_from = {}
+    grows = set()
+    for f in funcs:
+        for b, i, e in f.elements():
+            if e[0] == "A" and e[1][1] == "=":
+                fl = fields_of(apath(e[1][2])[2])
+                if fl and fl[-1].endswith("ILLsymboltab::the_hash"):
+                    r = strip(e[1][3])
+                    if isinstance(r, list) and r and r[0] == "c" and (r[1] or "").endswith("stringhash") and r[3]:
+                        a = strip(r[3][0])
+                        if is_var(a) and str(a[1]).startswith("p"):
+                            sets_from.setdefault(f.key, int(a[1][1:]))
+                if fl and fl[-1].endswith("ILLsymboltab::hashspace") and const_of(e[1][3]) != 0:
+                    grows.add(f.key)
+    changed = True
+    while changed:
+        changed = False
+        for f in funcs:
+            if f.key in grows:
+                continue
+            for b, i, c in f.calls():
+                g = prog.resolve(f, c[1]) if c[1] else None
+                if g is not None and g.key in grows:
+                    grows.add(f.key)
+                    changed = True
+                    break
+    res.counts["functions_that_leave_the_hash_of_their_string_parameter"] = sorted(prog.funcs[k].name for k in sets_from)
+    res.counts["functions_that_may_resize_the_table"] = sorted(prog.funcs[k].name for k in grows)
+    n = 0
+    for f in sorted(funcs, key=lambda x: x.key):
+        inserts = []
+        for b, i, e in f.elements():
+            if e[0] == "A" and e[1][1] == "=" and _is_head(e[1][2]):
+                idx = strip(strip(e[1][2])[2]) if strip(e[1][2])[0] == "i" else None
+                fl = fields_of(apath(idx)[2]) if idx is not None else None
+                if fl and fl[-1].endswith("ILLsymboltab::the_hash") and const_of(e[1][3]) is None:
+                    inserts.append((b["id"], i, e))
+        if not inserts or not any((c[1] or "").endswith("add_string") for b, i, c in f.calls()):
+            continue        # a relocation of an existing entry (ILLsymboltab_delete): R-HEADGUARD's business
+        ikeys = {(bid, i): e for bid, i, e in inserts}
+        bad = {}
+
+        def xfer(b, i, e, st):
+            hsrc, asrc = st
+            trees = [x[1] for x in e[1] if x[1] is not None] if e[0] == "D" else ([e[1]] if len(e) > 1 and isinstance(e[1], list) else [])
+            for t in trees:
+                for nd in walk(t):
+                    if not (isinstance(nd, list) and nd and nd[0] == "c" and nd[1]):
+                        continue
+                    g = prog.resolve(f, nd[1])
+                    if (nd[1] or "").endswith("add_string") and len(nd[3]) >= 2:
+                        asrc = show(strip(nd[3][1]))
+                    if g is not None and g.key in grows:
+                        hsrc = "?"
+                    if g is not None and g.key in sets_from and sets_from[g.key] < len(nd[3]):
+                        hsrc = show(strip(nd[3][sets_from[g.key]]))
+            if e[0] == "A" and e[1][1] == "=":
+                fl = fields_of(apath(e[1][2])[2])
+                if fl and fl[-1].endswith("ILLsymboltab::the_hash"):
+                    r = strip(e[1][3])
+                    hsrc = show(strip(r[3][0])) if (isinstance(r, list) and r and r[0] == "c" and (r[1] or "").endswith("stringhash") and r[3]) else "?"
+            if (b["id"], i) in ikeys and asrc is not None and not (hsrc == asrc and hsrc not in ("?", None)):
+                bad.setdefault((b["id"], i), (hsrc, asrc))
+            return [(hsrc, asrc)]
+
+        def refine(cond, truth, st):
+            hsrc, asrc = st
+            for nd in walk(cond):
+                if isinstance(nd, list) and nd and nd[0] == "c" and nd[1]:
+                    g = prog.resolve(f, nd[1])
+                    if g is not None and g.key in grows:
+                        hsrc = "?"
+                    if g is not None and g.key in sets_from and sets_from[g.key] < len(nd[3]):
+                        hsrc = show(strip(nd[3][sets_from[g.key]]))
+            return [(hsrc, asrc)]
+
+        fl_ = Flow(prog, f, [(None, None)], xfer, refine).run()
+        for (bid, i, e) in inserts:
+            n += 1
+            res.obligations += 1
+            res.nontrivial += 1
+            if (bid, i) in bad:
+                hsrc, asrc = bad[(bid, i)]
+                res.violations.append(Violation(rule, "%s|head insertion with the hash of another string" % f.name, f.name, short_loc(e[2]),
+                                                "%s: on a path to this insertion the_hash was last computed for %s (\"?\": for another table size / not by stringhash), "
+                                                "the entry gets the name %s" % (show(e[1])[:60], hsrc, asrc)))
+            else:
+                res.sample({"site": "%s %s: %s" % (short_loc(e[2]), f.name, show(e[1])[:50]), "verdict": "hash of the inserted name, current table size"}, limit=6)
+    res.counts["head_insertions_through_the_hash"] = n
+    res.floor("head insertions through ILLsymboltab::the_hash", n, floor)
+    return res
